@@ -320,7 +320,7 @@ func runC19(t *testing.T, rec *vrec, sc *c11Scenario, rng *vrng, q int) {
 	}
 	// reconnect from the same address with a new conversation whose first
 	// packets are out-of-band: they must not reach the old session's handler
-	if len(peers) > 0 && sc.Net.DelayMax <= 500 {
+	if len(peers) > 0 && sc.Net.DelayMax <= 500 && !sc.NoReconnect {
 		old := peers[0]
 		// keep copies of the earlier conversation's last out-of-band datagrams:
 		// the network may deliver duplicates of them late
